@@ -60,7 +60,8 @@ class C05(object):
                          'equation_object_shared_by_sectors.declared',
                          'term_built_products_and_quotients_of_locals.declared',
                          'other_models_created_during_construction',
-                         'sector_codes_ending_in_another_sectors_identifier.declared')
+                         'sector_codes_ending_in_another_sectors_identifier.declared',
+                         'single_placeholder_model.judged')
 
     def n_cases(self, tier):
         return 32 if tier == 'quick' else 1200
@@ -327,6 +328,29 @@ class C05(object):
         finally:
             Sector.GetVariableName = orig_gvn
         rec.count('placeholders.handed_out', len(handed))
+        if case.get('idx', 0) % 8 == 6 and not case.get('no_interleave'):
+            # the smallest case: a model in which exactly ONE name was handed out before the codes existed
+            from sfc_models.models import Model as _M1, Country as _C1
+            m1 = _M1()
+            c1 = _C1(m1, 'C1', 'one country')
+            a1 = Sector(c1, 'AA', 'a', has_F=False)
+            b1 = Sector(c1, 'BB', 'b', has_F=False)
+            a1.AddVariable('X', 'x', '2.5')
+            b1.AddVariable('Y', 'a local constant', '1.0')
+            m1.AddGlobalEquation('BB__Y2', 'a model-level equation that refers to the sector', '2.0*' + orig_gvn(a1, 'X'))
+            m1.MaxTime = 2
+            try:
+                with contextlib.redirect_stdout(io.StringIO()):
+                    m1.main()
+                txt1 = m1.FinalEquations
+                ok1 = 'BB__Y2' in txt1 and 'AA__X' in txt1.split('BB__Y2', 1)[1].split('\n', 1)[0] and '_%d__' % a1.ID not in txt1
+                got1 = m1.EquationSolver.TimeSeries.get('BB__Y2', [None, None])[1]
+            except Exception as e:
+                ok1, got1, txt1 = False, repr(e)[:200], getattr(m1, 'FinalEquations', '')
+            rec.count('single_placeholder_model.judged')
+            if not ok1 or got1 != 5.0:
+                rec.violate('placeholder_survives', {'model': 'two sectors, exactly one name handed out before the codes existed',
+                                                     'BB__Y2_at_k1': got1, 'text': txt1[:400]})
         text = mod.FinalEquations
         if not text:
             if interleave and self.run_case(dict(case, no_interleave=True))['verdict'] in ('held', 'violated'):
